@@ -333,6 +333,11 @@ def run(ctx, host=None):
     else:
         chk.bad(R4, ra.qualname, 'for pack_id in self._list_packs()', 'repack() no longer visits every existing pack', where=f'{ra.module.relpath}:{ra.lineno}')
 
+    # rules of other properties that are necessary conditions of this one too: a repack that records wrong ranges makes the other objects unreadable (C03)
+    if host is None:
+        from ..report import host_modules
+        host_modules(chk, ctx, ['C03'])
+
     return chk.finish(
         explanation=('Static provenance and typestate rules for delete_objects and repack_pack: keys of every unlink/DELETE traced to the request parameter, the chunk loop feeds SELECT '
                      'and DELETE, a cursor typestate (result rows consumed before a modifying statement on the same connection), returned keys = removed loose files U selected '
